@@ -442,3 +442,16 @@ m("benign-extra-lock-free-helper", "C15", "nomt/src/lib.rs",
   "    pub fn root(&self) -> Root {\n        self.shared.lock().root.clone()\n    }",
   "    pub fn root(&self) -> Root {\n        let shared = self.shared.lock();\n        let root = shared.root.clone();\n        drop(shared);\n        root\n    }",
   None)
+
+m("benign-commit-inner-helper", "C12", "nomt/src/lib.rs",
+  "    pub fn commit<T: HashAlgorithm>(self, nomt: &Nomt<T>) -> Result<(), anyhow::Error> {\n        let _write_guard = self.take_global_guard.then(|| nomt.access_lock.write());\n\n        {",
+  "    pub fn commit<T: HashAlgorithm>(self, nomt: &Nomt<T>) -> Result<(), anyhow::Error> {\n        let _write_guard = self.take_global_guard.then(|| nomt.access_lock.write());\n        self.commit_locked(nomt)\n    }\n\n    fn commit_locked<T: HashAlgorithm>(self, nomt: &Nomt<T>) -> Result<(), anyhow::Error> {\n        {",
+  None)
+m("benign-commit-inner-helper-c15", "C15", "nomt/src/lib.rs",
+  "    pub fn commit<T: HashAlgorithm>(self, nomt: &Nomt<T>) -> Result<(), anyhow::Error> {\n        let _write_guard = self.take_global_guard.then(|| nomt.access_lock.write());\n\n        {",
+  "    pub fn commit<T: HashAlgorithm>(self, nomt: &Nomt<T>) -> Result<(), anyhow::Error> {\n        let _write_guard = self.take_global_guard.then(|| nomt.access_lock.write());\n        self.commit_locked(nomt)\n    }\n\n    fn commit_locked<T: HashAlgorithm>(self, nomt: &Nomt<T>) -> Result<(), anyhow::Error> {\n        {",
+  None)
+m("benign-commit-inner-helper-c14", "C14", "nomt/src/lib.rs",
+  "    pub fn commit<T: HashAlgorithm>(self, nomt: &Nomt<T>) -> Result<(), anyhow::Error> {\n        let _write_guard = self.take_global_guard.then(|| nomt.access_lock.write());\n\n        {",
+  "    pub fn commit<T: HashAlgorithm>(self, nomt: &Nomt<T>) -> Result<(), anyhow::Error> {\n        let _write_guard = self.take_global_guard.then(|| nomt.access_lock.write());\n        self.commit_locked(nomt)\n    }\n\n    fn commit_locked<T: HashAlgorithm>(self, nomt: &Nomt<T>) -> Result<(), anyhow::Error> {\n        {",
+  None)
